@@ -48,6 +48,19 @@ type CaseResult struct {
 	Crash      bool           `json:"crash,omitempty"`
 }
 
+// timeoutMult: a confirmation re-run of a case that hit the watchdog gets a multiple of the case timeout
+// (VERIF_TIMEOUT_MULT), so that a loaded machine is not mistaken for a hang.
+func timeoutMult() int {
+	if n, err := strconv.Atoi(os.Getenv("VERIF_TIMEOUT_MULT")); err == nil && n > 1 {
+		return n
+	}
+	return 1
+}
+
+// HangSensitive is implemented by checks for which a confirmed hang or a process-level crash of the system under
+// test refutes the property itself (C10). For every other check such an event makes the case inconclusive.
+type HangSensitive interface{ HangIsViolation() bool }
+
 // Check is one property check.
 type Check interface {
 	ID() string
@@ -112,8 +125,8 @@ func Worker(c Check, seed int64, tier string, from, to int, out string, env *Env
 		go func(idx int) { // watchdog: inconclusive-or-crash, decided by the coordinator
 			select {
 			case <-done:
-			case <-time.After(c.CaseTimeout()):
-				fmt.Fprintf(os.Stderr, "WATCHDOG case %d exceeded %v; goroutine dump follows\n", idx, c.CaseTimeout())
+			case <-time.After(c.CaseTimeout() * time.Duration(timeoutMult())):
+				fmt.Fprintf(os.Stderr, "WATCHDOG case %d exceeded %v; goroutine dump follows\n", idx, c.CaseTimeout()*time.Duration(timeoutMult()))
 				_ = pprof.Lookup("goroutine").WriteTo(os.Stderr, 2)
 				os.Exit(4)
 			}
@@ -222,6 +235,7 @@ func Coordinate(c Check, o Options) int {
 	}
 	var mu sync.Mutex
 	var results []CaseResult
+	confirmedHangs := 0
 	next := 0
 	var wg sync.WaitGroup
 	workerLogs := filepath.Join(o.VerifDir, "logs")
@@ -265,7 +279,41 @@ func Coordinate(c Check, o Options) int {
 				kind = "watchdog"
 			}
 			tail := tailFile(keep, 60)
-			if c.CrashIsViolation() && (kind == "crash" || hangConfirmed(tail)) {
+			mu.Lock()
+			skipConfirm := confirmedHangs >= 3 // the check already fails on confirmed hangs: do not spend 4x on each further one
+			mu.Unlock()
+			if kind == "watchdog" && !skipConfirm {
+				// confirmation run: the same case alone, in a fresh process, with 4x the time. Only a second watchdog
+				// is a hang; a completed run is the case's result (the first watchdog was machine load).
+				out2 := filepath.Join(work, fmt.Sprintf("w%d-%d-confirm.jsonl", wid, cur))
+				args2 := []string{"worker", "--prop", c.ID(), "--tier", o.Tier, "--seed", strconv.FormatInt(o.Seed, 10),
+					"--from", strconv.Itoa(cur), "--to", strconv.Itoa(cur + 1), "--out", out2, "--work", work, "--replays", replayDir}
+				args2 = append(args2, o.ExtraArgs...)
+				cmd2 := exec.Command(o.Exe, args2...)
+				cmd2.Env = append(os.Environ(), "VERIF_TIMEOUT_MULT=4")
+				lf2, _ := os.Create(keep + ".confirm")
+				cmd2.Stdout, cmd2.Stderr = lf2, lf2
+				err2 := cmd2.Run()
+				lf2.Close()
+				if got2 := readResults(out2); err2 == nil && len(got2) == 1 {
+					mu.Lock()
+					results = append(results, got2...)
+					mu.Unlock()
+					_ = os.Remove(keep + ".confirm")
+					from = cur + 1
+					continue
+				}
+				tail = tailFile(keep+".confirm", 60)
+			}
+			hs, declares := c.(HangSensitive)
+			crashRefutes := c.CrashIsViolation() && (!declares || hs.HangIsViolation())
+			hangRefutes := declares && hs.HangIsViolation() && hangConfirmed(tail) // twice, the second time with 4x the time
+			if kind == "watchdog" && hangRefutes {
+				mu.Lock()
+				confirmedHangs++
+				mu.Unlock()
+			}
+			if (kind == "crash" && crashRefutes) || (kind == "watchdog" && hangRefutes) {
 				cr.Verdict = Violated
 				cr.Violations = []Violation{{Property: c.ID(), Oracle: "sut-" + kind, Sig: "sut-" + kind + ":" + crashSig(tail),
 					Msg: fmt.Sprintf("worker exit code %d while running case %d (%s); log %s", code, cur, kind, keep)}}
